@@ -296,7 +296,7 @@ def finalize(merged, tier, seed):
         inc.append("too few by-construction None assertions")
     if c.get("corpus:strings", 0) < 400:
         inc.append("corpus part covered only %d strings" % c.get("corpus:strings", 0))
-    if c.get("anchor:parser._check_strict_parsing", 0) < 1000:
+    if "anchor:parser._check_strict_parsing" in c and c["anchor:parser._check_strict_parsing"] < 1000:
         inc.append("_check_strict_parsing hardly executed")
     return {"inconclusive": inc, "anchors_hit": {k[7:]: v for k, v in c.items() if k.startswith("anchor:")}}
 
